@@ -133,7 +133,8 @@ impl Gen {
         let nf = engine_gen::no_filter;
         let live = |g: &Gen, rng: &mut StdRng| g.live.iter().filter(|l| l.0 == inst).cloned().nth(rng.random_range(0..3)).unwrap_or_else(|| (inst, "none".to_string(), "buy".to_string(), 2));
         match rng.random_range(0..100) {
-            0..=13 => engine_gen::ev("Market", ex, inst, "", "", "-", 0, false, "-", vec![], nf()),
+            0..=10 => engine_gen::ev("Market", ex, inst, "", "", "-", 0, false, "-", vec![], nf()),
+            11..=13 => engine_gen::ev("MarketNoPrice", ex, inst, "", "", "-", 0, false, "-", vec![], nf()),
             14..=17 => engine_gen::ev("MarketReconnecting", rng.random_range(0..2), 0, "", "", "-", 0, false, "-", vec![], nf()),
             18..=21 => engine_gen::ev("AccountReconnecting", rng.random_range(0..2), 0, "", "", "-", 0, false, "-", vec![], nf()),
             22..=35 => {
